@@ -148,4 +148,20 @@ def Step.ofGadget (d : Def) (o : Out) (n : Nat) : Step :=
 def Step.native (d : Def) (N : Nat) : Step :=
   { d with Deliv := fun y => y d.res = d.f.val y, lo := N, hi := N }
 
+
+/-! ## executable validator for `CtxCovers` and `WF` (run per generated model on the recorded contexts) -/
+
+/-- every use of a variable with the context the rule assigns to it -/
+def ctxUses (B : Bnds) (defs : List Def) (roots : List Root) : List (Var × Ctx) :=
+  roots.flatMap (fun r => propRangeLin r.body r.lb r.ub) ++ defs.flatMap (fun d => propFun B d.ctx.eff d.f)
+
+/-- the uses that the stored contexts do not cover: `(variable, required, stored)` -/
+def ctxGaps (B : Bnds) (defs : List Def) (roots : List Root) : List (Var × Ctx × Ctx) :=
+  ((ctxUses B defs roots).filter (fun p => !decide (p.2 ≤ (ctxOf defs p.1).eff))).map
+    (fun p => (p.1, p.2, ctxOf defs p.1))
+
+def wfB : Nat → List Def → Bool
+  | _, [] => true
+  | m, d :: ds => decide (m ≤ d.res) && d.f.vars.all (fun v => decide (v < d.res)) && wfB (d.res + 1) ds
+
 end MpVerif.C01
